@@ -276,7 +276,12 @@ class DefGen:
 
     def strlist(self, label, maxn=3):
         n = 1 + self.f.int(label + ".n", maxn)
-        return [self.value("%s.%d" % (label, i)) for i in range(n)]
+        out = [self.value("%s.%d" % (label, i)) for i in range(n)]
+        if self.profile != "benign" and self.f.flag(label + ".dup", 1, 5):
+            # the same value twice in one list (the last element equal to an earlier one)
+            self.values.append(self.values[out[0].i])
+            out.append(Slot(len(self.values) - 1))
+        return out
 
     def str_or_list(self, label):
         if self.f.flag(label + ".islist", 1, 3):
@@ -362,10 +367,10 @@ class DefGen:
         out = ["vacation"]
         if f.flag(label + ".subject", 1, 2):
             out += [":subject", self.value(label + ".subject")]
-        w = f.int(label + ".period", 3)
-        if w == 1:
+        w = f.int(label + ".period", 4)
+        if w in (1, 3):
             out += [":days", f.int(label + ".days", 31)]
-        elif w == 2:
+        if w in (2, 3):
             out += [":seconds", 60 * f.int(label + ".secs", 31)]
         if f.flag(label + ".from", 1, 3):
             out += [":from", self.value(label + ".fromv")]
@@ -383,6 +388,8 @@ class DefGen:
         nc = 1 + f.int(label + ".nc", maxc)
         na = 1 + f.int(label + ".na", maxa)
         conds = [self.condition("%s.c%d" % (label, i)) for i in range(nc)]
+        if self.profile != "benign" and f.flag(label + ".dupcond", 1, 8):
+            conds.append(conds[0])       # the very same condition twice, the repeat in last position
         acts = [self.action("%s.a%d" % (label, i)) for i in range(na)]
         mt = ["anyof", "allof"][f.int(label + ".matchtype", 2)]
         return conds, acts, mt
